@@ -380,6 +380,27 @@ class Exec:
             if isinstance(s.value, ast.Constant):
                 yield ("fall", None, env, st)
                 return
+            # local list mutation:  xs.append(v)  on a symbolic sequence (loop-havocked list)
+            if (isinstance(s.value, ast.Call) and isinstance(s.value.func, ast.Attribute)
+                    and s.value.func.attr in ("append",) and isinstance(s.value.func.value, ast.Name)
+                    and isinstance(env.get(s.value.func.value.id), Sym) and isinstance(env[s.value.func.value.id].ty, SeqTy)):
+                nm = s.value.func.value.id
+                cur = env[nm]
+                for v, st2 in self.expr(s.value.args[0], env, st):
+                    if isinstance(v, Raised):
+                        yield ("raise", v, env, st2)
+                        continue
+                    e2 = dict(env)
+                    # append as a fresh sequence with explicit index facts (E-matching friendly)
+                    c = z3.Const(fresh_name("appended"), cur.ty.sort)
+                    ki = z3.Int(fresh_name("ai"))
+                    n0 = z3.Length(cur.e)
+                    ve = coerce(v, cur.ty.elem)
+                    st2 = st2.assume(z3.Length(c) == n0 + 1, c[n0] == ve,
+                                     z3.ForAll([ki], z3.Implies(z3.And(ki >= 0, ki < n0), c[ki] == cur.e[ki])))
+                    e2[nm] = Sym(cur.ty, c)
+                    yield ("fall", None, e2, st2)
+                return
             # local list mutation:  xs.append(v)
             if (isinstance(s.value, ast.Call) and isinstance(s.value.func, ast.Attribute)
                     and s.value.func.attr in ("append",) and isinstance(s.value.func.value, ast.Name)
@@ -631,11 +652,25 @@ class Exec:
         """for over a symbolic sequence with a sidecar invariant Inv(vars, i, xs):
         (1) Inv(0) on entry  (2) Inv(i) /\ 0<=i<len, body => Inv(i+1)  (3) after the loop: Inv(len)"""
         from .spec import NS
-        inv = spec["invariant"]
+        inv0 = spec["invariant"]
         props = spec.get("props", ())
-        assigned = sorted({n.id for b in s.body for n in ast.walk(b) if isinstance(n, ast.Name) and isinstance(n.ctx, ast.Store)})
+        env0 = NS({k_: v_ for k_, v_ in env.items() if not k_.startswith("__")})
+        if inv0.__code__.co_argcount == 4:
+            inv = lambda v_, i_, xs_: inv0(v_, i_, xs_, env0)
+        else:
+            inv = inv0
+        assigned = {n.id for b in s.body for n in ast.walk(b) if isinstance(n, ast.Name) and isinstance(n.ctx, ast.Store)}
+        # lists grown with .append in the body are loop variables too
+        assigned |= {n.func.value.id for b in s.body for n in ast.walk(b) if isinstance(n, ast.Call)
+                     and isinstance(n.func, ast.Attribute) and n.func.attr == "append" and isinstance(n.func.value, ast.Name)}
         tnames = {n.id for n in ast.walk(s.target) if isinstance(n, ast.Name)}
-        assigned = [v for v in assigned if v in env and v not in tnames]
+        assigned = sorted(v for v in assigned if v in env and v not in tnames)
+        # literals get their declared loop type before the entry check
+        env = dict(env)
+        for v in assigned:
+            t_ = spec.get("types", {}).get(v)
+            if t_ is not None and not isinstance(env[v], Sym):
+                env[v] = Sym(t_, coerce(env[v], t_))
         n = Sym(IntT, z3.Length(it.e))
         self.obligations.append(Obligation(f"{self.cur_key}.for{ordinal}.invariant_on_entry", "loop-inv", list(st.hyps),
                                            z3_bool(inv(NS(env), 0, it)), {"props": props}))
@@ -1036,9 +1071,35 @@ class Exec:
 
     def e_IfExp(self, e, env, st):
         def on_test(c, st2):
+            t = truth(c)
+            if not isinstance(t, bool):
+                m = self.try_merge(e, t, env, st2)
+                if m is not None:
+                    yield m, st2
+                    return
             for b, st3 in self.fork_truth(st2, c):
                 yield from self.expr(e.body if b else e.orelse, env, st3)
         yield from self.bind(self.expr(e.test, env, st), on_test)
+
+    def try_merge(self, e, t, env, st):
+        """`a if c else b` as a value (no fork) when each branch has exactly one feasible, non-raising, report-free
+        outcome: the extra constraints of a unique feasible outcome are entailed, so they can be dropped"""
+        outs = []
+        for branch, cond in ((e.body, t), (e.orelse, v_not(t))):
+            st_b = st.assume(cond)
+            if not self.feasible(st_b.pc):
+                return None
+            try:
+                rs = list(self.expr(branch, env, st_b))
+            except PyvcUnsupported:
+                return None
+            if len(rs) != 1 or isinstance(rs[0][0], Raised) or len(rs[0][1].reports) != len(st.reports) or len(rs[0][1].qpc) != len(st_b.qpc):
+                return None
+            outs.append(rs[0][0])
+        try:
+            return merge_values(t, outs[0], outs[1])
+        except PyvcUnsupported:
+            return None
 
     def e_BoolOp(self, e, env, st):
         is_and = isinstance(e.op, ast.And)
@@ -1085,6 +1146,18 @@ class Exec:
                 if st_ok is None:
                     return
                 st2 = st_ok
+            if (isinstance(e.op, ast.Add) and isinstance(l, Sym) and isinstance(r, Sym) and isinstance(l.ty, SeqTy)
+                    and isinstance(r.ty, SeqTy) and l.ty.sort == r.ty.sort):
+                # concatenation of two symbolic sequences: a fresh sequence with explicit index facts
+                # (E-matching copes with these; it does not with seq.nth over seq.++)
+                c = z3.Const(fresh_name("concat"), l.ty.sort)
+                i = z3.Int(fresh_name("ki"))
+                la, lb = z3.Length(l.e), z3.Length(r.e)
+                st2 = st2.assume(c == z3.Concat(l.e, r.e), z3.Length(c) == la + lb,
+                                 z3.ForAll([i], z3.Implies(z3.And(i >= 0, i < la), c[i] == l.e[i])),
+                                 z3.ForAll([i], z3.Implies(z3.And(i >= la, i < la + lb), c[i] == r.e[i - la])))
+                yield Sym(l.ty, c), st2
+                return
             yield self.binop(e.op, l, r, st2), st2
         yield from self.bind(self.exprs([e.left, e.right], env, st), on)
 
@@ -1348,6 +1421,13 @@ class Exec:
             if self.specs is not None and (t.root, attr) in self.specs.virtuals and self.use_virtual:
                 yield VirtualM(r, t.root, attr), st
                 return
+            # a data field every member declares with the same type: read it without forking
+            ms = t.members()
+            if all(ClassTy(self.world, m).has_field(attr) for m in ms):
+                tys = {ClassTy(self.world, m).field_ty(attr).name for m in ms}
+                if len(tys) == 1:
+                    yield v_getfield(r, attr), st
+                    return
             # fork over the constructors
             for m in t.members():
                 rec = self.world.recognizer(m)(r.e)
@@ -1455,6 +1535,7 @@ class Exec:
         i, j = z3.Int(fresh_name("i")), z3.Int(fresh_name("j"))
         n = z3.Length(ks)
         facts = [z3.ForAll([k], z3.Contains(ks, z3.Unit(k)) == mem(k)),
+                 z3.ForAll([i], z3.Implies(z3.And(0 <= i, i < n), mem(ks[i]))),
                  z3.ForAll([i, j], z3.Implies(z3.And(0 <= i, i < j, j < n), ks[i] != ks[j])),
                  n == card(coll)] + card_axioms_for([coll])
         st2 = st.assume(*facts)
@@ -1701,6 +1782,18 @@ class Exec:
 
 
 _MISSING = object()
+
+
+def merge_values(c, a, b):
+    if isinstance(a, (tuple, list)) and isinstance(b, (tuple, list)) and len(a) == len(b):
+        return tuple(merge_values(c, x, y) for x, y in zip(a, b))
+    if a is None and b is None:
+        return None
+    if isinstance(a, (Sym, int, float, bool, str)) or isinstance(b, (Sym, int, float, bool, str)) or a is None or b is None:
+        if isinstance(a, (tuple, list)) or isinstance(b, (tuple, list)):
+            raise PyvcUnsupported("merge of tuple and scalar")
+        return v_ite(c, a, b)
+    raise PyvcUnsupported("unmergeable values")
 
 
 class _Captured(Exception):
